@@ -1,7 +1,7 @@
 (* driver for C14: same case format as harness/src/c14.rs. Output: every outcome the model allows
    (HashMap order), separated by " || " *)
-let addr_num = [| "168364297" (*10.9.9.9*); "168298504" (*10.8.8.8*); "42540766411282592856903984951653826569" (*2001:db8::9*) |]
-let addr_txt = [| "10.9.9.9"; "10.8.8.8"; "[2001:db8::9]" |]
+let addr_num = [| "168364297" (*10.9.9.9*); "184486143" (*10.255.8.255*); "42540766411282592856903984951653826569" (*2001:db8::9*) |]
+let addr_txt = [| "10.9.9.9"; "10.255.8.255"; "[2001:db8::9]" |]
 
 let () =
   for_each_case Sys.argv.(1) (fun f ->
